@@ -6,7 +6,9 @@ from debian_inspector import deb822, debcon
 ID = 'C06'
 LEVEL = 'proof'
 THEOREMS = [('DebInspector.Thm.C06', ['Props.C06.tracking_sound', 'Props.C06.go_doc', 'Props.C06.lines_render', 'Props.C06.fieldFacts',
-                                      'Props.C06.splitKeepEnds_flatten', 'Props.C06.skipBlankLines_suffix'])]
+                                      'Props.C06.splitKeepEnds_flatten', 'Props.C06.skipBlankLines_suffix']),
+            ('DebInspector.Thm.C06H', ['Props.C06H.sound_narrow', 'Props.C06H.headers_sound', 'Props.C06H.getParagraphData_para',
+                                       'Props.C06H.split_render', 'Props.C06H.mergeItems_distinct', 'Props.C06H.field_src'])]
 TRUSTED = [
     'Lean 4.33.0 kernel',
     'reading of the property as Props.C06.holdsOn (document grammar with explicit layout; expected results do not mention the layout)',
@@ -18,16 +20,16 @@ ASSUMPTIONS = ['K3: policy-legal field names outside [A-Za-z][A-Za-z0-9-]* are j
 RULE = ('documents of 1-6 paragraphs x 1-8 fields from a vocabulary with colons, URLs with ports, leading dots, From, non-ASCII, punctuation-only continuations, '
         'names with digits and trailing hyphens (and policy-legal names with _ . + for K3); separators of 1-4 empty lines optionally followed by blank-only lines; '
         '1 in 25 also through real temporary files. non-trivial = at least two paragraphs or a continuation line')
-TECHNIQUE = ('Lean 4 theorem Props.C06.tracking_sound: the line-tracking parser on every well-formed document (K3 hypothesis on names) '
-             '+ executable document-grammar specification evaluated on every implementation observation for both parsers + correspondence with the hand models of both parsers')
-LEVEL_TEXT = ('Props.C06.tracking_sound: for every well-formed deb822 document - any number of paragraphs and fields, names of letters, digits and hyphens (the hypothesis of finding K3), any blanks after the colon, '
+TECHNIQUE = ('Lean 4 theorem Props.C06H.sound_narrow: both parsers on every well-formed document (hypothesis K3 on names); headers_sound: the header-style parser for every policy-legal name '
+             '+ the full-strength executable document-grammar specification on every implementation observation + correspondence with the hand models of both parsers')
+LEVEL_TEXT = ('Props.C06H.sound_narrow: for every well-formed deb822 document - any number of paragraphs and uniquely named fields, names of letters, digits and hyphens (the hypothesis of finding K3), any blanks after the colon, '
               'values and continuation lines of any characters but line terminators (colons, non-ASCII, leading dots), one empty line plus any number of white-space-only lines between paragraphs, with or without a final newline - '
-              'the model of get_paragraphs_as_field_groups returns the paragraphs in order, each with exactly its fields in order: names lower-cased, first-line values trimmed, continuation lines kept. '
-              'Proved in Lean 4: the rendered text splits into exactly the document lines (lines_render), and the loop on those lines builds one group per paragraph (go_doc, by induction over paragraphs, fields and continuation lines, '
-              'with the character-class facts fieldFacts: a declaration line is a declaration, not a continuation, and from_line gives the lower-cased name and trimmed value). '
-              'The header-style parser (stdlib e-mail header model) and the file routes are decided by the executable specification on every implementation observation and by correspondence, not by theorem; '
-              'the lemmas splitKeepEnds_flatten and skipBlankLines_suffix are about its scanners.')
-LEVEL_NOTE = ('Trusted: Lean kernel; axioms propext, Classical.choice, Quot.sound only; stdlib email parsing modelled; file I/O exercised; K3 is a known finding (names outside [A-Za-z][A-Za-z0-9-]*).')
+              'both the model of get_paragraphs_data (header-style) and of get_paragraphs_as_field_groups (line-tracking) return the paragraphs in order, each with exactly its fields in order: names lower-cased, first-line values trimmed, continuation lines kept. '
+              'headers_sound proves the header-style half for every policy-legal name (printable ASCII except colon and space), i.e. at full strength; tracking_sound the line-tracking half. '
+              'Proved in Lean 4 by induction over paragraphs, fields, lines and characters: the paragraph splitter (split_render), the line splitter with terminators, the header loop on groups of source lines, '
+              'header_source_parse (field_src), the merge with distinct names (mergeItems_distinct), the line-tracking loop (go_doc). '
+              'The stdlib header parser is a hand model (tied by its own correspondence stream); the file routes are exercised on real files, not modelled.')
+LEVEL_NOTE = ('Trusted: Lean kernel; axioms propext, Classical.choice, Quot.sound only; stdlib email parsing modelled; file I/O exercised; K3 is a known finding (names outside [A-Za-z][A-Za-z0-9-]* are junk for the line-tracking parser).')
 
 WORK = os.path.join(os.path.dirname(os.path.dirname(os.path.dirname(os.path.abspath(__file__)))), 'work')
 NAMES = ['Package', 'Version', 'Depends', 'X-Foo', 'a', 'B2', 'Build-Depends-Indep', 'x-', 'From', 'Description', 'homepage', 'SHA256', 'Files', 'License', 'Maintainer', 'q9-9']
